@@ -1,0 +1,12 @@
+//go:build verif
+
+package agdservice
+
+import "context"
+
+// VerifC17WorkerContext returns a context made by the constructor that w uses
+// for every refresh, so that its deadline can be compared with the
+// configuration the worker was built from.
+func VerifC17WorkerContext(w *RefreshWorker) (ctx context.Context, cancel context.CancelFunc) {
+	return w.context()
+}
